@@ -43,6 +43,44 @@ theorem PkCore_hasDerivAt_lower (α k m hi : ℝ) (hm : 0 < m) (hhi : 0 < hi) :
     field_simp
     ring
 
+/-- d/dm ∫_lo^m x^(α+k−1) = m^(α+k−1): a moving *upper* edge, any moment -/
+theorem PkCore_hasDerivAt_upper_k (α k lo m : ℝ) (hlo : 0 < lo) (hm : 0 < m) :
+    HasDerivAt (fun x => PkCore α k lo x) (m ^ (α + k - 1)) m := by
+  have hfun : (fun x => PkCore α k lo x) =
+      fun x => if -α = k then Real.log (x / lo) else (x ^ (α + k) - lo ^ (α + k)) / (α + k) := by
+    funext x; rw [PkCore_real]
+  rw [hfun]
+  by_cases h : -α = k
+  · simp only [h, if_true]
+    have hk : α + k - 1 = -1 := by linarith
+    rw [hk, Real.rpow_neg_one]
+    have h1 : HasDerivAt (fun x : ℝ => x / lo) (1 / lo) m := by
+      simpa using (hasDerivAt_id m).div_const lo
+    have h2 := h1.log (by positivity)
+    refine h2.congr_deriv ?_
+    field_simp
+  · simp only [h, if_false]
+    have hne : α + k ≠ 0 := by intro h0; apply h; linarith
+    have h1 : HasDerivAt (fun x : ℝ => x ^ (α + k)) ((α + k) * m ^ (α + k - 1)) m :=
+      Real.hasDerivAt_rpow_const (Or.inl hm.ne')
+    have h2 := (h1.sub (hasDerivAt_const m (lo ^ (α + k)))).div_const (α + k)
+    refine h2.congr_deriv ?_
+    rw [sub_zero]
+    field_simp
+
+/-- the stellar mass of the draining bin, `A·Pk(α,2,l,m_to(t))`, changes at `m_to·(dN/dt)`: every star that leaves carries the
+    turn-off mass (this is the stellar term of `C02.massRate`) -/
+theorem star_mass_rate (A al l a0 a1 a2 t : ℝ) (h0 : 0 < a0) (h1 : 0 < a1) (h2 : a2 < 0) (ht : a0 < t) (hl : 0 < l) :
+    HasDerivAt (fun s => A * PkCore al 2 l (mtoFin a0 a1 a2 s))
+      (mtoFin a0 a1 a2 t * (A * (mtoFin a0 a1 a2 t) ^ al * dmdtRaw a0 a1 a2 t)) t := by
+  have hm0 : 0 < mtoFin a0 a1 a2 t := mtoFin_pos a0 a1 a2 t h0 h1 ht
+  have hd := mto_hasDerivAt a0 a1 a2 t h0 h1 h2.ne ht
+  have hcomp := ((PkCore_hasDerivAt_upper_k al 2 l _ hl hm0).comp t hd).const_mul A
+  refine hcomp.congr_deriv ?_
+  have e : al + 2 - 1 = al + 1 := by ring
+  rw [e, Real.rpow_add_one hm0.ne']
+  ring
+
 /-- **the closed-form star count solves the code's ODE while the bin is draining**: with `N(s) = A·Pk(α,1,l,mto s)`,
     `N'(t) = −(N/Pk)·mto^α·|mto'(t)|`, which is exactly `−sevDNdm · dmdtAbs` of `derivsSev` at that state -/
 theorem closed_star_solves (A al l a0 a1 a2 t nmin : ℝ) (h0 : 0 < a0) (h1 : 0 < a1) (h2 : a2 < 0) (ht : a0 < t)
@@ -269,6 +307,10 @@ structure Statement : Prop where
     (∀ t ∈ Set.Icc t0 t1, HasDerivAt N (-(sevDNdm nmin (N t) al l (mtoFin a0 a1 a2 t)).1 * dmdtAbs a0 a1 a2 t) t) →
     N t0 = A * PkCore al 1 l (mtoFin a0 a1 a2 t0) →
     ∀ t ∈ Set.Icc t0 t1, N t = A * PkCore al 1 l (mtoFin a0 a1 a2 t)
+  /-- the mass of the draining bin changes at `m_to` times its number rate -/
+  star_mass : ∀ (A al l a0 a1 a2 t : ℝ), 0 < a0 → 0 < a1 → a2 < 0 → a0 < t → 0 < l →
+    HasDerivAt (fun s => A * PkCore al 2 l (mtoFin a0 a1 a2 s))
+      (mtoFin a0 a1 a2 t * (A * (mtoFin a0 a1 a2 t) ^ al * dmdtRaw a0 a1 a2 t)) t
   deposit : ∀ (A al hi frem a0 a1 a2 t : ℝ), 0 < a0 → 0 < a1 → a2 < 0 → a0 < t → 0 < hi →
     HasDerivAt (fun s => frem * (A * PkCore al 1 (mtoFin a0 a1 a2 s) hi))
       (frem * (A * (mtoFin a0 a1 a2 t) ^ al * dmdtAbs a0 a1 a2 t)) t
@@ -283,11 +325,13 @@ structure Statement : Prop where
 
 /-- **C01 (partial)**: (i) dopri5 is assumed to approximate the solution (budget measured at default and tightened tolerance);
     (ii) the deposit is proved segment-wise (class and remnant bin fixed); gluing over the finitely many crossing masses is
-    done by the executable model (`closedRemnants`) with crossings supplied as data; (iii) uniqueness of the ODE solution is not proved. -/
+    done by the executable model (`closedRemnants`) with crossings found by bisection (checked by correspondence, not proved);
+    (iii) uniqueness is proved for the draining star bin (`closed_star_unique`), the remnant bins then follow by C02's balance. -/
 theorem C01_partial : Statement where
   branch := predict_eq_predictAs
   star_solves := closed_star_solves
   star_unique := closed_star_unique
+  star_mass := star_mass_rate
   deposit := deposit_tracks_flux
   residue := stars_residue
   piece := pieceNM_exact
